@@ -1,8 +1,8 @@
 (* Models of the record split functions of goawk (interp/io.go: newScanner, dropCR, dropLF,
    blankLineSplitter.scan, byteSplitter.scan, regexSplitter.scan), of bufio.ScanLines (the
    Scanner's default, used for RS = "\n"), and of the RT default that interp.nextLine writes
-   before every Scan ("p.recordTerminator = p.recordSep").  They mirror the code of the pinned
-   tree, defects included.  Slices and indexing are the checked [slice]/[index] of Lib/Base.v.
+   before every Scan ("p.recordTerminator = p.recordSep").  They mirror the code of the
+   current tree.  Slices and indexing are the checked [slice]/[index] of Lib/Base.v.
 
    A raw split function returns  Ok (advance, token, rt)  where token = None is Go's nil token
    and rt = Some t records the write "*s.terminator = t".   Definitions only. *)
@@ -88,6 +88,7 @@ Definition blank_scan : rawfn := fun data atEOF =>
   let start := i in
   match find_blank (zdrop start data) start with
   | Some (en, i') =>
+      if (zlen data <=? i') && negb atEOF then more else   (* if i >= len(data) && !atEOF: request more data *)
       do rt <- slice data en i';
       do s <- slice data start en;
       do t <- drop_cr s;
@@ -97,7 +98,7 @@ Definition blank_scan : rawfn := fun data atEOF =>
         do s <- slice data start (zlen data);
         do s1 <- drop_lf s;
         do tok <- drop_cr s1;
-        do rt <- slice data (zlen tok) (zlen data);     (* data[len(token):]  (sic) *)
+        do rt <- slice data (start + zlen tok) (zlen data);     (* data[start+len(token):] *)
         Ok (zlen data, Some tok, Some rt)
       else more
   end.
@@ -146,9 +147,10 @@ Definition new_scanner_raw (rs : bytes) (find : bytes -> option (Z * Z)) : rawfn
 Definition goawk_split (rs : bytes) (find : bytes -> option (Z * Z)) : splitfn unit record :=
   to_split rs (new_scanner_raw rs find).
 
-(* setSpecial(RS): for len(RS) <= 1 it runs regexp.MustCompile(regexp.QuoteMeta(RS)), which
-   panics when RS is one byte that is not valid UTF-8 (>= 0x80) *)
-Definition set_rs_panics (rs : bytes) : bool :=
+(* setSpecial(RS): for len(RS) <= 1 it recompiles recordSepRegex = QuoteMeta(RS) for a
+   possibly active regexSplitter - except when RS is one byte that is not valid UTF-8
+   (>= 0x80), which cannot be written as a regex: recordSepRegex is then left as it is *)
+Definition rs_keeps_regex (rs : bytes) : bool :=
   match rs with
   | [c] => 128 <=? c
   | _ => false
@@ -156,9 +158,8 @@ Definition set_rs_panics (rs : bytes) : bool :=
 
 (* records of standard input for a fixed RS; executable instance of the regex oracle *)
 Definition records (last_eof : bool) (rs : bytes) (r : re) (chunks : list bytes)
-  : option (list record * stop) :=
-  if set_rs_panics rs then None
-  else Some (scan unit record (goawk_split rs (find r)) last_eof tt chunks).
+  : list record * stop :=
+  scan unit record (goawk_split rs (find r)) last_eof tt chunks.
 
 (* RS assigned by the program while a file is being read by an active regexSplitter: the
    splitter dereferences p.recordSepRegex at every call (interp.go setSpecial V_RS recompiles
@@ -179,5 +180,5 @@ Definition records_sched (last_eof : bool) (rs1 : bytes) (r1 : re) (k : nat) (rs
   (chunks : list bytes) : list record * stop :=
   scan nat record
     (regex_split_sched (fun n => if Nat.ltb n k then rs1 else rs2)
-                       (fun n => find (if Nat.ltb n k then r1 else r2)))
+                       (fun n => find (if Nat.ltb n k then r1 else if rs_keeps_regex rs2 then r1 else r2)))
     last_eof O chunks.
